@@ -665,6 +665,9 @@ impl Sys for AckR {
 #[derive(Clone, Debug)]
 pub enum MOp {
     InsertNext(u64), // insert at next + skip
+    /// insert_or_update at an absolute packet number >= window start (an existing entry is updated,
+    /// a missing one - also below the current maximum - is inserted)
+    InsertOrUpdate(u64),
     Remove(u64),     // relative to window start: start + k
     RemoveRange(i64, i64, bool),
     Clear,
@@ -714,6 +717,24 @@ impl Sys for PMap {
             ops.push(MOp::InsertNext(1));
             ops.push(MOp::InsertNext(9));
         }
+        if !self.model.is_empty() {
+            // existing first / middle / last entries, a hole below the maximum (if any) and the next number
+            let first = *self.model.keys().next().unwrap();
+            let last = *self.model.keys().next_back().unwrap();
+            let mut t: BTreeSet<u64> = BTreeSet::new();
+            t.insert(first);
+            t.insert(last);
+            t.insert((first + last) / 2);
+            if let Some(hole) = (first..last).find(|p| !self.model.contains_key(p)) {
+                t.insert(hole);
+            }
+            if self.next < self.budget {
+                t.insert(self.next);
+            }
+            for p in t {
+                ops.push(MOp::InsertOrUpdate(p));
+            }
+        }
         let lo = self.lo();
         let hi = self.next;
         // removal targets: first, second, a middle one, last, and one outside either end
@@ -753,6 +774,20 @@ impl Sys for PMap {
                 self.real.insert(pn(p), v);
                 self.model.insert(p, v);
                 self.next = p + 1;
+            }
+            MOp::InsertOrUpdate(p) => {
+                let v = (p as u16).wrapping_mul(31).wrapping_add(7);
+                if let Some(lo) = self.model.keys().next() {
+                    self.max_distance = self.max_distance.max(p.saturating_sub(*lo));
+                }
+                self.real.insert_or_update(pn(p), v, |old| *old = old.wrapping_add(1));
+                match self.model.get_mut(&p) {
+                    Some(old) => *old = old.wrapping_add(1),
+                    None => {
+                        self.model.insert(p, v);
+                    }
+                }
+                self.next = self.next.max(p + 1);
             }
             MOp::Remove(p) => {
                 let g = self.real.remove(pn(p));
